@@ -37,6 +37,11 @@ Definition run_cli (methods : list string) (input : string) (run : list (string 
               else [])                                                (* AttributeError: skipped *)
            run.
 
+(* ---- labels of the distributions file (scene.py 3148-3153, 3289-3291) ---- *)
+(* the name columns are NumPy fixed-width strings: a value longer than the width is cut; the width is the longest name, at least 18 *)
+Definition csv_label (width : nat) (name : string) : string := substring 0 width name.
+Definition name_width (names : list string) : nat := fold_right Nat.max 18 (map String.length names).
+
 (* ---- STL assembly ---- *)
 Section Stl.
   Context {A : Type}.
